@@ -11,7 +11,12 @@ correspond(res):
      compared exactly with Model/Inversion.v and Model/BstAdapted.v;
   3. implementation-only oracle: u -> state is integrated over a dyadic partition refined around the change
      points; the lengths are compared with p; zero-probability / out-of-grid / origin states are flagged; draw
-     sequences are replayed in two orders.
+     sequences are replayed in two orders;
+  4. (wave 7, audit 4) factory chains on ROUNDED probabilities (intensity 3, 5, 7) on interior- and EDGE-origin axes: oracle at
+     u = 1 - 2^-53 with every position of the frontier deque (F-C02-13 zero-probability end point, F-C02-14 the origin), and the
+     exact float-increment tie `inversion_floatinc`; matches_known re-runs the draw for F-C02-13 / F-C02-14;
+  5. (wave 7) chain_exponential: every SamplingMethod on real HEM / Merton / VG models, plain and ExponentialOf*, on grids that cut
+     both tails: realised law against the truncated measure computed independently (seeded change C02_i).
 """
 import bisect
 import json
@@ -34,8 +39,8 @@ RULE = ("probability vectors: 8 dyadic classes (uniform, one dominant, many zero
         "inversion histories of 1..200 draws in 5 orders with _max_storage in {1,2,3,5,..,default}, batch sample() with lowered storage; "
         "32-bit words for TABLE incl. alias thresholds; exhaustion path of INVERSION: InversionMethod built directly on dyadic probability "
         "tables whose sum is 1 - 2^-k (k = 52, 40, 12, 4) or 1, uniforms 1 - 2^-53, 1 - 2^-52, random in (sum, 1), 1, 1.25 with EVERY position of "
-        "the frontier deque scripted into np.random.choice, and factory chains with intensity 3, 5, 7 (rounded probabilities); every "
-        "direct sampler is built from ONE float64 ndarray that must stay bit-identical; wave 6: 2-d INVERSION histories with EVERY draw given a scripted position of np.random.choice in the frontier deque (same position in both orders), 3-d density-table chains (c01_table3.TableN, arbitrary dyadic cell masses in all octants, grids [-1,1]^3, [-1,2]^3, [-2,2]^3; thorough: up to [-3,3]^3) for the n-d tree. non-trivial = distinct (sampler, vector/chain, uniform) with >= 3 states")
+        "the frontier deque scripted into np.random.choice, and factory chains with intensity 3, 5, 7 (rounded probabilities) on interior-origin axes and (wave 7) EDGE-origin axes (L = 0 or R = 0, incl. the audit's witness and its mirror), each also as an exact float-increment history (default and tiny _max_storage, uniforms at the stored sums -/+ one ulp); every "
+        "direct sampler is built from ONE float64 ndarray that must stay bit-identical; wave 6: 2-d INVERSION histories with EVERY draw given a scripted position of np.random.choice in the frontier deque (same position in both orders), 3-d density-table chains (c01_table3.TableN, arbitrary dyadic cell masses in all octants, grids [-1,1]^3, [-1,2]^3, [-2,2]^3; thorough: up to [-3,3]^3) for the n-d tree. wave 7: the library's REAL Levy models (HEM, Merton, VG) as plain models AND wrapped in ExponentialOf*Model, every SamplingMethod through MarkovChainProcess on fixed-size uniform grids whose ends cut > 1e-3 of both tails (oracle). non-trivial = distinct (sampler, vector/chain, uniform) with >= 3 states")
 MODELLED = [
     "numpy arrays / collections.deque / Python lists as Coq lists (alias deques right-to-left); np.uint(ku) as floor; int(x) as truncation; np.cumsum as a running sum; np.searchsorted(side=left) on a non-decreasing array as the number of leading entries < v",
     "list.sort(key, reverse=True) as a stable decreasing insertion sort; bisect.bisect_left by its binary-search loop",
@@ -48,13 +53,14 @@ MODELLED = [
     "wave 6 -- REGENERATED from the source and linked by theorem: BinarySearchTree.sample_with_u (the `while ptr <= self.K` descent) is translated on every run by the TIE translator (harness/specs/TIE.py + harness/py2coq_loops.py -> Gen/GenTieBst.v, in GEN_DEPS: a source outside the subset breaks the check) and C02_gen_bst_sample_with_u_is_model (Proofs/Tie_Bst.v) proves the generated definition equal to the hand model bst_sample for every K, array and uniform; C02_gen_bst_law restates the law on the generated descent. Likewise AliasMethod._draw_with_u (Gen/GenTieAlias.v, np.uint read as Qfloor = numpy's truncation for K u >= 0; Python ints Z vs nat in the hand model): C02_gen_alias_draw_with_u_is_model (Proofs/Tie_Alias.v, for u >= 0) and C02_gen_alias_law. All other sampler kernels (constructors, Huffman, table, inversion, adapted trees) remain hand models tied by the correspondence",
     "wave 6 -- n-d INVERSION of the factory with the frontier deque inside the model: Model/InversionFrontierNd.v (states = lists of d integers, enumeration sznd_project = PairingToZd over (nested) Szudzik, frnd / maxfnd = the deque and max_frontier_indices computed by Model/Domain.v dom_nd / dom_maxf with Boundary(), outsidend = outside the box); tied exactly on 2-d chains: the implementation's deque IN ORDER, max_frontier_indices, every draw with a scripted position of np.random.choice, whether np.random.choice was called, the final cumulative sums and the StatesManager state. d >= 3 (the factory switches to Rosenberg-Strong there) stays on the oracle",
     "wave 6 -- BinarySearchTreeAdapted in d = 3: Model/BstAdaptedNd.v tied exactly on 3-d density-table chains (harness/c01_table3.py TableN + its Levy copula through LevyCopulaModel._mass_3d): 26 buckets (0, 6 or 12 cached depending on the shape), bisection cycling over 3 axes, bucket lists and cached flags compared too",
+    "wave 7 -- float runs of INVERSION: with prob := the increments of the floats stored in _cumulative_probabilities the model's partial sums ARE the stored floats (every comparison of the sampler is with these floats), so inv_step_f reproduces a float run exactly; tied on factory chains with rounded probabilities (intensity 3, 5, 7; interior and EDGE-origin axes) by group inversion_floatinc. Edge-origin axes (L = 0 or R = 0) are also in inversion_direct (exact tables) -- they are NOT driven through `chains` because BinarySearchTreeAdapted1D does not terminate for u = 0.0 on an axis with L = 0 (left half axis (0, -1): `while left != right` never ends; observed, not recorded as a finding: same class as F-C02-6, u = 0.0 only)",
     "float arithmetic: theorems are over Q with exact-sum hypotheses (sum p = 1, u < sum p) that float vectors meet only up to rounding (e.g. sums 0.9999999999999998); exact agreement is checked on dyadic inputs where every float operation of the samplers is exact, incl. vectors whose sum is deliberately off 1; non-dyadic vectors and intensities by the oracle with tolerance 1e-9",
     "Qred in Model/Table.v (reduction to lowest terms, Qred x == x) only keeps vm_compute fast",
 ]
 ASSUMPTIONS = [
     "probability vector entries are >= 0 (zeros and ties allowed), length >= 1; uniforms 0 <= u < sum p (alias, table: sum p = 1)",
     "C02_inversion_admissible: unconditional in the enumeration (any inadmissible indices, any number of restarts; StatesManager half = C14 sm_step_protocol on the tree repaired by a073fcb); prob >= 0 (the factory clips with max(.,0)), _max_storage >= 1, F >= 0. In C02_inversion_admissible the random frontier state drawn on exhaustion (u above the sum) is the symbol Frontier; C02_inversion_frontier_law resolves it",
-    "C02_inversion_frontier_law: same hypotheses, ANY deque fr and any position c; part (3) needs sigma <= 1 (sum of the admissible probabilities: 1 in exact arithmetic, below 1 after rounding); part (5) needs every index of the deque admissible -- proved for the 1-d factory grid (C02_inversion_frontier_1d, 0 < L, 0 < R); and (wave 6) for the n-d factory grid with nested Szudzik (C02_inversion_frontier_nd: all_sizes <> [], sizes > 0, 0 < o < last_size - 1, Boundary()); for a custom Domain (RectangleBoundary: the deque can hold the index of the origin, audit D13 = F-C14-8) it is NOT proved -- the factory hard-codes Boundary(); the Rosenberg-Strong enumeration the factory uses for d >= 3 has the C14 half (C14_frontier_draw_factory) but is not composed with the C02 law (3-d: oracle)",
+    "C02_inversion_frontier_law: same hypotheses, ANY deque fr and any position c; part (3) needs sigma <= 1 (sum of the admissible probabilities: 1 in exact arithmetic, below 1 after rounding); part (5) needs every index of the deque admissible -- proved for the 1-d factory grid with an interior origin (C02_inversion_frontier_1d / _1d_law, 0 < L, 0 < R) and FALSE on an edge-origin axis (L = 0 or R = 0: F-C02-14, C02_inversion_frontier_edge_origin_refuted; no library constructor builds such a grid, the public CTMCGrid accepts it); and (wave 6) for the n-d factory grid with nested Szudzik (C02_inversion_frontier_nd: all_sizes <> [], sizes > 0, 0 < o < last_size - 1, Boundary()); for a custom Domain (RectangleBoundary: the deque can hold the index of the origin, audit D13 = F-C14-8) it is NOT proved -- the factory hard-codes Boundary(); the Rosenberg-Strong enumeration the factory uses for d >= 3 has the C14 half (C14_frontier_draw_factory) but is not composed with the C02 law (3-d: oracle)",
     "C02_bstadapted1d_law: mass additive and non-negative on ordered intervals (closed forms: C09), cell boundaries ordered (C13), left-tail mass = mass of the left axis cells (truncation, C01), lambda > 0, a point on each side of the origin; C02_bstadapted1d_cache_history_free: mass is a function of the values of its arguments, eviction only drops entries",
     "C02_bstadaptednd_*: the box mass bm is non-negative and additive under the split of one axis (C12 for the copula rectangle mass), coordinates in [0, B)",
     "right-closed samplers (INVERSION, BSTADAPTED 1-d/n-d): 'never a zero-probability state' is proved for u > 0 only; u = 0 is the recorded finding F-C02-6 (C02_*_zero_uniform_refuted)",
@@ -73,13 +79,17 @@ THEOREM_NOTES = {
     "C02_bstadapted1d_cache_history_free / C02_bstadaptednd_cache_history_free": "READ caches (a hit replaces the evaluation of the mass): 1-d keyed by the float arguments, n-d keyed by the box; any eviction policy that only drops entries; soundness of the cache is relative to the instance's own mass (a cache shared between instances breaks it)",
     "C02_bstadaptednd_bucket_law": "full for sample_one_bucket: termination with the model's fuel by the potential (d+1)(sum(hi-lo) - [axis >= k moves]) + (d-k); right-closed step function; every cell of the bucket exactly once with length bm(cell)",
     "C02_bstadaptednd_law": "full on the REAL bucket list buckets d n o of _pre_computation: cached-axis branch (searchsorted (axis_cum b) = locate_r (axis_segs b), with the min(., len-1) repair) and bisection branch composed with the bucket stage; product buckets partition the non-origin cells (buckets_partition): every non-origin cell exactly once with length bm(cell), never the origin, never outside the grid. Example C02_bstadaptednd_nonvacuous: buckets 2 5 2 has 8 buckets, 4 of them cached",
-    "C02_inversion_frontier_law": "full (wave 5): every enumeration, deque, _max_storage >= 1, reachable state (any history), u, c: output = admissible state of locate_r, or project(fr[c]) iff u > sigma (np.random.choice consumed iff u > sigma; never for u <= 1 when sigma == 1); for sigma <= 1 and each c the sampler is the right-closed step function of adm_segs' ++ [(1 - sigma, fr[c])] (total 1) on (0,1]; summed over the positions c the index i gets len(fr) * p_i + (1 - sigma) * multiplicity of i in the deque (uniformity of np.random.choice over positions is numpy's, outside the model); admissible deque => admissible output",
-    "C02_inversion_frontier_1d": "full: for the factory's 1-d grid (0 < L, 0 < R) the deque dom_1d is [pair R; pair(-L)], both admissible indices <= max_frontier_indices, the frontier states are the two end points: in the grid, never the origin (uses C14 z1d_pair_spec)",
+    "C02_inversion_frontier_law": "PARAMETRIC in the deque fr and in F (audit 4: 'genuine but thin' -- accepted: clause 1 is C02_inversion_admissible with the symbol Frontier resolved, clause 4 is list algebra on fsegs, fr = [] is accepted and then the model answers proj 0 where np.random.choice raises; what ties fr / F to the code are the instances C02_inversion_frontier_1d_law, C02_inversion_frontier_nd_law, C02_inversion_frontier_edge_origin_refuted and the correspondence, which compares the deque in order on every inversion case). sigma is the exact sum of prob (float runs: prob := increments of the stored float sums, see LEVEL_TEXT). Full (wave 5): every enumeration, deque, _max_storage >= 1, reachable state (any history), u, c: output = admissible state of locate_r, or project(fr[c]) iff u > sigma (np.random.choice consumed iff u > sigma; never for u <= 1 when sigma == 1); for sigma <= 1 and each c the sampler is the right-closed step function of adm_segs' ++ [(1 - sigma, fr[c])] (total 1) on (0,1]; summed over the positions c the index i gets len(fr) * p_i + (1 - sigma) * multiplicity of i in the deque (uniformity of np.random.choice over positions is numpy's, outside the model); admissible deque => admissible output",
+    "C02_inversion_frontier_1d": "full for an INTERIOR origin only (0 < L, 0 < R): the deque dom_1d is [pair R; pair(-L)], both admissible indices <= max_frontier_indices, the frontier states are the two end points: in the grid, not the origin (uses C14 z1d_pair_spec). For L = 0 or R = 0 the statement is false: C02_inversion_frontier_edge_origin_refuted",
+    "C02_inversion_frontier_1d_law": "wave 7 (audit B11: fr / F were free in C02_inversion_frontier_law): the law with fr := fr1d L R, F := maxf1d L R, outside := outside the grid INSIDE the statement, 0 < L, 0 < R: any table >= 0, storage >= 1, reachable state, u, c < len(deque): the state is in [-L, R] and not 0 (admissible index < L + R by maxf1d < L + R and C14 z1d_project_spec); u <= sigma: the admissible state of locate_r with interval length prob s; u > sigma: project(deque[c]) = nth c [R; -L]. Example C02_frontier_edge_nonvacuous (second half): a reachable state after a restart, both branches",
+    "C02_inversion_frontier_1d_edge_deque / C02_inversion_frontier_edge_origin_refuted": "wave 7, F-C02-14 (audit D1), for-all REFUTATION of 'never the origin': for every R > 0 the deque of the axis with L = 0 is [R - 1; -1] (pair(0) = mapping_to_z(0) - omit = -1), -1 is not an admissible index, project(-1) = _projection(0) = 0; symmetric for R = 0. Hence for EVERY table >= 0, storage, reachable state and u above sigma, position 1 (L = 0) / 0 (R = 0) returns the increment 0. Hypothesis sigma < u is met on float runs (non-vacuity: C02_frontier_edge_nonvacuous, first half) and never for u <= 1 when sigma == 1 exactly",
+    "C02_inversion_frontier_origin_refuted": "wave 7, F-C02-14 witness on the FLOAT RUN of /repo (auditor's grid: h = 1/4, origin_coordinate = 0, 10 points, intensity 7, and its mirror): fe_prob = increments of the stored float sums (compared with the implementation on every run: inversion_floatinc), sum 1 - 2^-52, u = 1 - 2^-53, deque [8; -1]: position 1 -> 0, position 0 -> 9 (vm_compute)",
+    "C02_inversion_frontier_zero_prob_run_refuted": "wave 7 (audit: the older witness is a hand-made table): F-C02-13 on the float run of its recorded witness (masses 0, 1, 1, 0, 1/4, 17/4, 1/2), fz_prob_run = increments of the stored float sums",
     "C02_gen_bst_sample_with_u_is_model / C02_gen_bst_law": "wave 6 (TIE): the definition py2coq regenerates from binarysearchtree.py on every run equals the hand model (induction on the fuel; the fuel K + 1 always suffices); the BST law, range and never-zero-probability restated on the generated descent. Example C02_gen_bst_nonvacuous runs the generated loop",
     "C02_gen_alias_draw_with_u_is_model / C02_gen_alias_law": "wave 6 (TIE2): the regenerated _draw_with_u equals Z.of_nat (alias_draw ..) for every K, q, J and u >= 0 (the lemma carries 0 <= u because np.uint truncates and Qfloor floors); C02_alias_law (lengths p_k, draw = locate on the columns, index in [0,K), never a zero-probability state) restated on the generated draw run on the constructor model's tables. Example C02_gen_alias_nonvacuous",
     "C02_inversion_frontier_nd": "wave 6, full for the factory's n-d grid with (nested) Szudzik, any d >= 2, any axis sizes > 0, origin not on the edge of the last axis, Boundary(): every index of the REAL deque dom_nd computes is an admissible index in [0, max_frontier_indices] (0 <= index because the projected state is not the origin; index <= dom_maxf by the max; in the box by C14_frontier_draw_factory), the deque is non-empty, position c projects to the first/last point of a line along the last axis: in the grid, never the origin",
     "C02_inversion_frontier_nd_law": "wave 6, full: C02_inversion_frontier_law composed with the above -- any probability table >= 0, any _max_storage >= 1, any history, any u, any position c < len(deque): the state returned is in the grid and not the origin; u <= sigma: the admissible state of the right-closed step function (interval length = its probability); u > sigma: EXACTLY project(deque[c]), on the frontier. Example C02_inversion_frontier_nd_nonvacuous: the 5 x 5 deque (10 entries, 24 admissible indices), a 4 x 4 x 4 deque (32 entries), a history with storage 3 taking the frontier draw twice",
-    "C02_inversion_frontier_zero_prob_refuted": "F-C02-13 on the faithful model: probabilities summing to 1 - 2^-52 with p(-3) = 0, u = 1 - 2^-53, position 1 -> state -3 (vm_compute witness); on the implementation the deficit comes from rounding rate/intensity (intensity 7)",
+    "C02_inversion_frontier_zero_prob_refuted": "F-C02-13 on the faithful model, HAND-MADE table (the float run of the recorded witness: C02_inversion_frontier_zero_prob_run_refuted): probabilities summing to 1 - 2^-52 with p(-3) = 0, u = 1 - 2^-53, position 1 -> state -3 (vm_compute witness); on the implementation the deficit comes from rounding rate/intensity (intensity 7)",
     "C02_inversion_zero_uniform_refuted / C02_bstadapted1d_zero_uniform_refuted": "vm_compute witnesses of F-C02-6 on the faithful models",
     "C02_inversion_overflow_orig / C02_inversion_overflow_repaired": "Examples: the historical witness of F-C02-7 = F-C14-6 on the ORIGINAL model (Model/InversionOrig.v) and the same instance on the repaired model (answers state 3 with storage 1, 2, 10^6)",
 }
@@ -93,22 +103,22 @@ LEVEL_TEXT = ("Proof: 25 positive Coq theorems (closed under the global context,
               "model (np.random.choice = an explicit position c of the deque): the draw is taken iff u exceeds the sum sigma of the admissible "
               "probabilities (never for u <= 1 in exact arithmetic), for sigma <= 1 the sampler is the step function with one more interval "
               "(sigma, 1] labelled frontier[c], the deficit 1 - sigma goes to the frontier indices in proportion to their multiplicity, and on the "
-              "factory's 1-d grid the frontier states are the two end points (in the grid, never the origin); (wave 6) on the factory's n-d grid (Szudzik, d >= 2) the REAL deque dom_nd computes holds admissible indices only, so every draw returns an in-grid non-origin state and, when u exceeds sigma, exactly project(deque[c]), an end point of a line of the box; (wave 6) the BinarySearchTree descent and AliasMethod._draw_with_u are REGENERATED from the source by py2coq on every run and proved equal to the hand models (the laws are restated on the generated definitions); BinarySearchTreeAdapted1D is "
+              "factory's 1-d grid WITH AN INTERIOR ORIGIN (0 < L, 0 < R: every grid a library constructor builds) the real deque dom_1d is inside the statement (C02_inversion_frontier_1d_law: any table, storage, history, u, position c: an in-grid non-origin state; u > sigma: exactly R for c = 0, -L for c = 1); on an EDGE-origin axis (L = 0 or R = 0, accepted by the public CTMCGrid + MarkovChainProcess) 'never the origin' is REFUTED (F-C02-14, audit 4 D1): the deque holds pair(0) = -1 whose projection is the increment 0, for every table, history and uniform above the sum (C02_inversion_frontier_edge_origin_refuted; witness on the float run of /repo: intensity 7, float sum 1 - 2^-52, u = 1 - 2^-53); (wave 6) on the factory's n-d grid (Szudzik, d >= 2) the REAL deque dom_nd computes holds admissible indices only, so every draw returns an in-grid non-origin state and, when u exceeds sigma, exactly project(deque[c]), an end point of a line of the box; (wave 6) the BinarySearchTree descent and AliasMethod._draw_with_u are REGENERATED from the source by py2coq on every run and proved equal to the hand models (the laws are restated on the generated definitions); BinarySearchTreeAdapted1D is "
               "the right-closed step function of the cell masses for any additive mass; the n-d BinarySearchTreeAdapted on the real bucket "
               "list of _pre_computation (cached axis vectors and axis-cycling bisection, which terminates) gives every non-origin cell of "
               "the grid exactly bm(cell), never the origin. History: the 1-d and n-d lru caches are proved to be harmless READ caches for any "
               "eviction policy; C02_history_free_table_driven is only about a write-only state (cost counters) and detects nothing by itself. "
-              "2 theorems are refutation witnesses of the recorded finding F-C02-6 (u = 0.0 in the right-closed samplers), 1 of F-C02-13 (a uniform in "
-              "(float sum, 1) is sent by the frontier draw to an end point of probability zero); F-C02-7 is fixed "
+              "2 theorems are refutation witnesses of the recorded finding F-C02-6 (u = 0.0 in the right-closed samplers), 2 of F-C02-13 (a uniform in "
+              "(float sum, 1) is sent by the frontier draw to an end point of probability zero: a hand-made table, and the float run of the recorded witness), 3 state F-C02-14 (the edge-origin deque, the for-all refutation, the float-run witness and its mirror); F-C02-7 is fixed "
               "(historical witness kept as an Example on the original model). The hand-written executable models are tied to /repo on every "
               "run by a vm_compute correspondence (~45k draws at all break points: direct constructors, every SamplingMethod through "
               "MarkovChainProcess on centred and non-centred grids, the n-d tree on table-copula, independent and dependent copula chains in "
               "2-d and 3-d, 32-bit words for TABLE, cost counters, the factory vector, inversion histories incl. the exhaustion path with "
               "uniforms above the sum and every scripted position of np.random.choice, the frontier deque and max_frontier_indices against "
               "Model/Domain.v, InversionMethod built directly on tables whose sum is 1 - 2^-k with u = 1 - 2^-53) plus an implementation-only oracle (exact integration of u -> state, exact word law of TABLE, batch "
-              "vs single uniform with lowered storage, same array twice, two orders, float sums below 1 with the frontier choice scripted, every direct sampler "
+              "vs single uniform with lowered storage, same array twice, two orders, float sums below 1 with the frontier choice scripted; (wave 7) every SamplingMethod through MarkovChainProcess on real HEM / Merton / VG models, plain and as ExponentialOf*Model, on grids cutting real tail mass on both sides: realised law by exact integration against cell mass / intensity of the TRUNCATED measure from closed forms written in the harness, 1e-7 (catches seeded C02_i: a wrapper whose mass() answers with the un-truncated measure); every direct sampler "
               "built from ONE float64 ndarray that must stay bit-identical through constructors and draws). Float rounding for non-dyadic "
-              "inputs is outside the theorems (the frontier theorem takes the rounded sum sigma as a parameter); the distribution of "
+              "inputs is outside the theorems: sigma in the frontier theorems is the EXACT sum of the function prob, not a rounded sum; a float run is covered by reading prob as the INCREMENTS of the floats InversionMethod stores (s_0 = p_0, s_{k+1} = fl(s_k + p_{k+1}); the sampler compares u with these floats only), then the model's sums are the stored floats and sigma is the stored float sum -- this reading is checked on every run on factory chains with intensity 3, 5, 7 (group inversion_floatinc: every state incl. the frontier draws and the origin on edge-origin axes, the final sums, the StatesManager state), but the relation between the increments and rate/intensity (each within len * 2^-53) is float arithmetic and not proved; C02_inversion_frontier_law itself is parametric in the deque and in F (the real deque is in the _1d_law / _nd_law / _edge_ instances); the distribution of "
               "np.random.choice over the positions of the deque is numpy's and is not modelled; the 2-d frontier deque is tied exactly (order, max index, every scripted position), the 3-d one (Rosenberg-Strong) only by the oracle; the n-d tree is tied exactly in d = 2 and (wave 6) d = 3 on density tables with arbitrary dyadic cell masses.")
 LEVEL_NOTE = ("Trusted: Coq kernel + vm_compute; hand-written models (lists for arrays/deques, floor for np.uint, stable insertion sort for "
               "list.sort, bisect_left loop, cumsum/searchsorted on sorted arrays) tied by exact comparison on dyadic inputs; Q arithmetic "
@@ -1009,7 +1019,14 @@ def inversion_direct(res, rng, groups, viol):
     from rpylib.grid.spatial import CTMCGrid
     g_dir = []
     shapes = [(3, 3), (1, 1), (2, 5), (6, 2), (10, 10), (1, 7)] + ([] if res.tier == "quick" else [(23, 12), (4, 4), (40, 40), (9, 1)])
+    # wave 7 (audit 4, D1): EDGE-origin axes (L = 0 or R = 0; the public CTMCGrid accepts origin_coordinate = 0 / n - 1): the deque
+    # holds pair(0) = -1, whose projection is the origin (F-C02-14).  Own random stream: the cases above are unchanged.
+    shapes += [(0, 4), (5, 0), (0, 1), (0, 9)] + ([] if res.tier == "quick" else [(9, 0), (0, 17), (1, 0)])
+    rng_main, rng_edge = rng, random.Random(res.seed * 7919 + 14)
     for L, R in shapes:
+        edge = L == 0 or R == 0
+        rng = rng_edge if edge else rng_main
+        res.bump("inversion_direct_origin", "edge (L = 0 or R = 0)" if edge else "interior")
         for k_def in (52, 40, 12, 4, None):
             for zero_end in (False, True):
                 n = L + R + 1
@@ -1079,9 +1096,15 @@ def inversion_direct(res, rng, groups, viol):
                             elif called:
                                 res.bump("inversion_direct_frontier", "u = 1 - 2^-53" if u == top else "u in (sum, 1)" if u < 1.0 else "u >= 1")
                                 want = int(sm1.pairing.project(fr_idx[c]))
+                                if edge and o == want == 0 and fr_idx[c] == -1:
+                                    # F-C02-14 on a hand-made table (the table is not a probability vector when its sum is below 1, so
+                                    # nothing is reported here; through the factory on rounded probabilities: chain_float_sum)
+                                    res.bump("inversion_direct_frontier", "ORIGIN returned: deque entry pair(0) = -1 of an edge-origin axis")
+                                    continue
                                 if o != want or o == 0 or not (-L <= o <= R):
                                     viol("InversionMethod: on exhaustion the state returned is not the chosen frontier state of the grid",
                                          u=u, got=o, choice=c, want=want, max_storage=M, **ctx)
+                                    continue
                                 if table[o] == 0:
                                     res.bump("inversion_direct_frontier", "frontier state of probability zero returned (deficient table)")
                             elif u > 0.0 and (o == 0 or not (-L <= o <= R) or table[o] == 0):
@@ -1144,31 +1167,204 @@ def chain_probability_step(res, rng, viol):
                     break
 
 
-# ----------------------------------------------------------------------------- float sums below 1 (oracle only)
-def chain_float_sum(res, rng, viol):
-    """1-d chains whose intensity is not a power of two: rate / intensity is rounded and the float cumulative sum can end
-    below 1 - 2^-53.  Every sampler must still return a state of the grid (never the origin) for u = 1 - 2^-53; for INVERSION
-    a uniform above the float sum takes the exhaustion path (random frontier state)."""
+# ----------------------------------------------------------------------------- real Levy models, plain AND exponential wrappers (oracle only)
+def _exp_family(family, params):
+    """(plain model, exponential model, INDEPENDENT interval mass m(a, b) of the UN-truncated Levy measure for a < b on one side
+    of 0 -- closed forms written out here from the densities, nothing of rpylib is called)"""
+    from scipy.special import exp1
+    if family == "HEM":
+        from rpylib.model.levymodel.mixed.hem import HEMModel, ExponentialOfHEMModel, HEMParameters
+        mk_p = lambda: HEMParameters(**params)
+        lam, pp, e1, e2 = params["intensity"], params["p"], params["eta1"], params["eta2"]
+        mass = lambda a, b: lam * (1 - pp) * (math.exp(e2 * b) - math.exp(e2 * a)) if b <= 0 else lam * pp * (math.exp(-e1 * a) - math.exp(-e1 * b))
+        return HEMModel(mk_p()), ExponentialOfHEMModel(spot=100.0, r=0.02, d=0.0, parameters=mk_p()), mass
+    if family == "Merton":
+        from rpylib.model.levymodel.mixed.merton import MertonModel, ExponentialOfMertonModel, MertonParameters
+        mk_p = lambda: MertonParameters(**params)
+        lam, mu, sj = params["intensity"], params["mu_j"], params["sigma_j"]
+        Phi = lambda x: 0.5 * math.erfc(-x / math.sqrt(2.0))
+        mass = lambda a, b: lam * (Phi((b - mu) / sj) - Phi((a - mu) / sj))
+        return MertonModel(mk_p()), ExponentialOfMertonModel(spot=100.0, r=0.02, d=0.0, parameters=mk_p()), mass
+    if family == "VG":
+        from rpylib.model.levymodel.purejump.variancegamma import VarianceGammaModel, ExponentialOfVarianceGammaModel, VGParameters
+        mk_p = lambda: VGParameters(**params)
+        sg, nu, th = params["sigma"], params["nu"], params["theta"]
+        root = math.sqrt(th * th + 2 * sg * sg / nu)
+        M_, G_, C_ = (root - th) / sg ** 2, (root + th) / sg ** 2, 1.0 / nu          # density C e^{-M x}/x (x > 0), C e^{-G|x|}/|x| (x < 0)
+        mass = lambda a, b: C_ * (float(exp1(G_ * -b)) - float(exp1(G_ * -a))) if b <= 0 else C_ * (float(exp1(M_ * a)) - float(exp1(M_ * b)))
+        return VarianceGammaModel(mk_p()), ExponentialOfVarianceGammaModel(spot=100.0, r=0.02, d=0.0, parameters=mk_p()), mass
+    raise ValueError(family)
+
+
+EXP_CASES = [("HEM", dict(sigma=0.1, p=0.45, eta1=7.0, eta2=5.0, intensity=4.0), 0.05, 16),
+             ("Merton", dict(sigma=0.1, mu_j=0.05, sigma_j=0.15, intensity=3.0), 0.05, 12),
+             ("VG", dict(sigma=0.2, nu=0.5, theta=-0.1), 0.0625, 10),
+             ("HEM", dict(sigma=0.2, p=0.3, eta1=12.0, eta2=9.0, intensity=2.5), 0.03125, 20)]
+EXP_CASES_THOROUGH = [("HEM", dict(sigma=0.1, p=0.45, eta1=7.0, eta2=5.0, intensity=4.0), 0.1, 8),
+                      ("Merton", dict(sigma=0.2, mu_j=0.1, sigma_j=0.3, intensity=1.5), 0.1, 10),
+                      ("VG", dict(sigma=0.12, nu=0.2, theta=0.05), 0.03125, 24),
+                      ("Merton", dict(sigma=0.1, mu_j=0.0, sigma_j=0.15, intensity=3.0), 0.025, 30)]
+EXP_METHODS = ("ALIAS", "TABLE", "BINARYSEARCHTREE", "HUFFMANNTREE", "INVERSION", "BINARYSEARCHTREEADAPTED1D")
+
+
+def exp_case_law(family, params, exponential, h, nb, name, rng):
+    """one chain through the public MarkovChainProcess on a fixed-size uniform grid (the grid ends cut REAL tail mass on both sides):
+    returns (realised lengths {increment: Fraction}, independent target {increment: float}, tolerance, cut tail fractions)"""
     from rpylib.distribution.sampling import SamplingMethod as SM
     from rpylib.distribution.variate import huffmantree as H
-    below = 0
-    for trial in range(-1, 12 if res.tier == "quick" else 60):
-        if trial < 0:
-            # fixed witness of F-C02-13: intensity 7, float sum 0.9999999999999998, the left end state -3 has probability zero
-            L, R = 3, 3
-            masses = [Fr(0), Fr(1), Fr(1), Fr(0), Fr(1, 4), Fr(17, 4), Fr(1, 2)]
-        else:
-            L, R = rng.choice([(2, 2), (3, 5), (6, 2), (10, 10)])
-            lam_int = rng.choice([3, 3, 5, 7])
-            ints = _composition(rng, lam_int * (1 << 8), L + R, zero_frac=rng.choice([0.0, 0.3]))
-            if rng.random() < 0.4:
-                e = rng.choice([0, L + R - 1])              # an end point of the axis (a frontier state of INVERSION) without mass
-                j = max(range(L + R), key=lambda t: ints[t])
-                if j != e:
-                    ints[j] += ints[e]
-                    ints[e] = 0
-            masses = [Fr(v, 1 << 8) for v in ints[:L] + [0] + ints[L:]]          # total intensity 3, 5 or 7
+    from rpylib.grid.spatial import CTMCUniformGrid
+    from rpylib.process.markovchain.markovchain import MarkovChainProcess
+    plain, expo, mass = _exp_family(family, params)
+    grid = CTMCUniformGrid.create_from_fixed_nb_of_points(h=h, nb_of_points=nb)
+    half = nb // 2
+    pts = [k * h for k in range(-half, half + 1)]
+    if [float(x) for x in grid.axes[0]] != pts or grid.origin_coordinate.value != half:
+        raise RuntimeError("create_from_fixed_nb_of_points: unexpected axis")
+    # target: the measure TRUNCATED to [axis[0], axis[-1]], cells bounded by the arithmetic mid-points, origin cell excluded
+    cell = {}
+    for k in range(-half, half + 1):
+        if k:
+            lo = pts[0] if k == -half else (k - 0.5) * h
+            hi = pts[-1] if k == half else (k + 0.5) * h
+            cell[k] = mass(lo, hi)
+    tot = sum(cell.values())
+    target = {k: v / tot for k, v in cell.items()}
+    cut = (mass(-60.0, pts[0]) / tot, mass(pts[-1], 60.0) / tot)
+    s = MarkovChainProcess(expo if exponential else plain, SM[name], grid).sampling
+    tol = 1e-7
+    if name == "TABLE":
+        # table_word_law labels table slots by INDEX and residual words by what sample() returns: run it with the identity as
+        # `states` (after checking that the factory's map is index - origin) and shift the labels here
+        if [int(v) for v in s.states(list(range(len(pts))))] != [k - half for k in range(len(pts))]:
+            raise RuntimeError("TABLE: the factory's `states` map is not index - origin")
+        keep = s.states
+        s.states = ident
+        try:
+            counts, _ = table_word_law(s, len(pts), resid_limit=2, rng=rng)
+        finally:
+            s.states = keep
+        if any(isinstance(k, tuple) for k in counts):
+            raise RuntimeError("TABLE: the state of a table slot depends on the upper 24 bits of the word")
+        lengths = {k - half: Fr(v) / (1 << 32) for k, v in counts.items()}
+        return lengths, target, tol + (2 * len(pts) + 2) / float(1 << 24), cut
+    ks = sorted(target)
+    enum_axis, enum_pair = ks, sorted(ks, key=lambda k: (abs(k), k < 0))
+    hints = []
+    for order in (enum_axis, enum_pair):
+        acc = 0.0
+        for k in order:
+            acc += target[k]
+            hints.append(acc)
+    if name == "ALIAS":
+        one = lambda u: int(s.states([s._draw_with_u(u)])[0])
+        hints = _alias_hints(s)
+    elif name == "HUFFMANNTREE":
+        one = lambda u: int(s.states(H.sample_with_u(u, s.head)[0]))
+        hints = [float(v) for v in _huff_breaks(s.head)]
+    else:
+        one = lambda u: int(s.sample_with_u(u))
+        if name == "BINARYSEARCHTREE":
+            hints = [float(v) for v in s.bst]
+    top = 1.0 - 1e-9                                   # the last 1e-9 is the float-sum territory of F-C02-8 / F-C02-13
+    if name == "INVERSION":
+        one(top)
+        hints = hints + [float(c_) for c_ in s._cumulative_probabilities]
+    lengths, _ = integrate_step_function(one, hints=[x for x in hints if 0.0 < x < top], n0=512, top=top)
+    return lengths, target, tol, cut
+
+
+def chain_exponential(res, rng, viol):
+    """EVERY SamplingMethod through MarkovChainProcess on the library's REAL Levy models, as plain models and wrapped in their
+    ExponentialOf*Model (HEM, Merton, VG), on fixed-size uniform grids whose ends cut a visible part of both tails: the law
+    realised by the sampler (exact integration of u -> state; TABLE: exact count over the 32-bit words) against
+    cell mass / intensity of the TRUNCATED measure computed here from closed forms of the densities (nothing of rpylib).
+    A sampler that reads a different measure than the chain's truncated one (e.g. a wrapper answering mass() with the un-truncated
+    measure of the wrapped model) moves the cut tail mass onto some state."""
+    cases = EXP_CASES + (EXP_CASES_THOROUGH if res.tier != "quick" else [])
+    for family, params, h, nb in cases:
+        for exponential in (False, True):
+            for name in EXP_METHODS:
+                ctx = dict(sampler=name, model=family, exponential=exponential, params=params, h=h, nb_of_points=nb, exp_case=True)
+                try:
+                    lengths, target, tol, cut = exp_case_law(family, params, exponential, h, nb, name, rng)
+                except Exception as e:  # noqa
+                    viol(f"chain on a real Levy model raises {type(e).__name__} for SamplingMethod.{name}", error=str(e)[:200], **ctx)
+                    continue
+                res.count(("law-exp", family, tuple(sorted(params.items())), exponential, h, nb, name), kind=f"oracle-law-{'exponential' if exponential else 'plain'}-{family}-{name}")
+                res.bump("exp_chain_cut_tail", "both tails cut by > 1e-3 of the kept mass" if min(cut) > 1e-3 else "a tail cut by <= 1e-3")
+                bad = [k for k in target if abs(float(lengths.get(k, Fr(0))) - target[k]) > tol]
+                extra = [k for k in lengths if k not in target and lengths[k] > 0]
+                if extra:
+                    viol(f"{name} on a real Levy model: the origin or a state outside the grid has positive length", state=int(extra[0]),
+                         length=float(lengths[extra[0]]), **ctx)
+                elif bad:
+                    k = max(bad, key=lambda k_: abs(float(lengths.get(k_, Fr(0))) - target[k_]))
+                    viol(f"{name} on a real Levy model ({'ExponentialOf' if exponential else 'plain '}{family}): total length of the uniforms sent to a state "
+                         "differs from (mass of its cell under the measure truncated to the grid) / intensity",
+                         state=int(k), length=float(lengths.get(k, Fr(0))), target=target[k], cut_left=cut[0], cut_right=cut[1], **ctx)
+
+
+# ----------------------------------------------------------------------------- float sums below 1 (oracle + float-increment tie)
+D1_MASSES = [Fr(0), Fr(51, 256), Fr(53, 64), Fr(547, 256), Fr(13, 32), Fr(161, 256), Fr(375, 256), Fr(59, 256), Fr(55, 256), Fr(57, 64)]
+
+
+def _guarded(f, seconds=20):
+    """f() under a SIGALRM watchdog (main thread only): a sampler that does not terminate must not hang the check"""
+    import signal
+    import threading
+    if threading.current_thread() is not threading.main_thread():
+        return f()
+
+    def _raise(*_a):
+        raise TimeoutError(f"no answer within {seconds} s")
+    old = signal.signal(signal.SIGALRM, _raise)
+    signal.alarm(seconds)
+    try:
+        return f()
+    finally:
+        signal.alarm(0)
+        signal.signal(signal.SIGALRM, old)
+
+
+def float_sum_specs(res, rng):
+    """(L, R, cell masses): intensity 3, 5 or 7, so that rate / intensity is rounded.  First the recorded witness of F-C02-13, then
+    random interior-origin axes; then (wave 7, own random stream) EDGE-origin axes, first the witness of F-C02-14 and its mirror."""
+    specs = [(3, 3, [Fr(0), Fr(1), Fr(1), Fr(0), Fr(1, 4), Fr(17, 4), Fr(1, 2)])]
+
+    def rand(r_, shapes):
+        L, R = r_.choice(shapes)
+        lam_int = r_.choice([3, 3, 5, 7])
+        ints = _composition(r_, lam_int * (1 << 8), L + R, zero_frac=r_.choice([0.0, 0.3]))
+        if r_.random() < 0.4:
+            e = r_.choice([0, L + R - 1])              # an end point of the axis (a frontier state of INVERSION) without mass
+            j = max(range(L + R), key=lambda t: ints[t])
+            if j != e:
+                ints[j] += ints[e]
+                ints[e] = 0
+        return L, R, [Fr(v, 1 << 8) for v in ints[:L] + [0] + ints[L:]]          # total intensity 3, 5 or 7
+    for _ in range(12 if res.tier == "quick" else 60):
+        specs.append(rand(rng, [(2, 2), (3, 5), (6, 2), (10, 10)]))
+    rng_edge = random.Random(res.seed * 7919 + 15)
+    specs += [(0, 9, list(D1_MASSES)), (9, 0, list(reversed(D1_MASSES)))]
+    for _ in range(6 if res.tier == "quick" else 30):
+        specs.append(rand(rng_edge, [(0, 4), (5, 0), (0, 8), (7, 0), (0, 2), (0, 12)]))
+    return specs
+
+
+def chain_float_sum(res, rng, groups, viol):
+    """1-d chains whose intensity is not a power of two: rate / intensity is rounded and the float cumulative sum can end
+    below 1 - 2^-53.  Every sampler must still return a state of the grid (never the origin) for u = 1 - 2^-53; for INVERSION
+    a uniform above the float sum takes the exhaustion path (random frontier state).  Wave 7: also EDGE-origin axes (L = 0 or
+    R = 0) through the public CTMCGrid + MarkovChainProcess, and the exact tie `inversion_floatinc`: the Coq model run on the
+    INCREMENTS of the floats InversionMethod stores must return every state of a scripted history of the float run."""
+    from rpylib.distribution.sampling import SamplingMethod as SM
+    from rpylib.distribution.variate import huffmantree as H
+    below, g_inc = 0, []
+    rng_inc = random.Random(res.seed * 7919 + 16)
+    for L, R, masses in float_sum_specs(res, rng):
         n = L + R + 1
+        edge = L == 0 or R == 0
+        res.bump("float_sum_origin", "edge (L = 0 or R = 0)" if edge else "interior")
         ctx = dict(h=0.25, left=L, right=R, masses=[str(m) for m in masses])
         for method in (SM.INVERSION, SM.ALIAS, SM.BINARYSEARCHTREE, SM.HUFFMANNTREE, SM.BINARYSEARCHTREEADAPTED1D):
             name = method.name
@@ -1186,14 +1382,14 @@ def chain_float_sum(res, rng, viol):
                     o = int(s.states(H.sample_with_u(u, s.head)[0]))
                 else:
                     with ScriptedChoice() as ch0:          # INVERSION: position 0 of the frontier deque (all positions: below)
-                        o = int(s.sample_with_u(u))
+                        o = int(_guarded(lambda: s.sample_with_u(u)))
             except Exception as e:  # noqa
                 viol(f"{name}: the uniform 1 - 2^-53 raises {type(e).__name__}", sampler=name, u=u, error=str(e)[:200], **ctx)
                 continue
             res.count(("float-sum", name, L, R, tuple(masses)), kind=f"{name} at 1 - 2^-53 (rounded probabilities)")
             target_o = masses[o + L] if -L <= o <= R else None
-            if name == "INVERSION" and ch0.calls and target_o == 0 and o != 0:
-                pass                                       # the frontier draw: reported below as F-C02-13 with the choice in the replay
+            if name == "INVERSION" and ch0.calls and ((target_o == 0 and o != 0) or (o == 0 and edge)):
+                pass                                       # the frontier draw: reported below (F-C02-13 / F-C02-14) with the choice in the replay
             elif o == 0 or not (-L <= o <= R) or target_o == 0:
                 extra = {}
                 if name in ("BINARYSEARCHTREE", "HUFFMANNTREE"):
@@ -1242,15 +1438,64 @@ def chain_float_sum(res, rng, viol):
                             continue
                         res.bump("float_sum_frontier_choice", c)
                         want = int(sm.pairing.project(fr_idx[c]))
-                        if oc != want or oc == 0 or not (-L <= oc <= R):
+                        rep = dict(sampler=name, u=u, float_sum=top, got=oc, choice=c, frontier_indices=fr_idx,
+                                   frontier_states=[int(sm.pairing.project(ix)) for ix in fr_idx], intensity=float(proc.intensity_of_jumps), **ctx)
+                        if edge and oc == want == 0 and fr_idx[c] == -1:
+                            # F-C02-14 (audit 4, D1): the deque of an edge-origin axis holds pair(0) = -1 and project(-1) is the ORIGIN
+                            res.bump("float_sum_edge_origin", "origin returned (u in (float sum, 1))")
+                            if smp is not s:
+                                viol("InversionMethod through the factory on an edge-origin grid: a uniform in (float sum of the probabilities, 1) "
+                                     "is sent by the frontier draw to the ORIGIN (increment 0)", finding="F-C02-14", **rep)
+                        elif oc != want or oc == 0 or not (-L <= oc <= R):
                             viol("InversionMethod: on exhaustion the state returned is not the chosen frontier state of the grid",
                                  sampler=name, u=u, float_sum=top, got=oc, choice=c, want=want, **ctx)
                         elif masses[oc + L] == 0 and smp is not s:
                             viol("InversionMethod: a uniform in (float sum of the probabilities, 1) is sent by the frontier draw to a state of probability zero",
-                                 finding="F-C02-13", sampler=name, u=u, float_sum=top, got=oc, choice=c, frontier_indices=fr_idx,
-                                 frontier_states=[int(sm.pairing.project(ix)) for ix in fr_idx], probability_of_got=str(masses[oc + L]),
-                                 intensity=float(proc.intensity_of_jumps), **ctx)
+                                 finding="F-C02-13", probability_of_got=str(masses[oc + L]), **rep)
+                _floatinc_case(res, rng_inc, g_inc, L, R, masses, method)
     res.bump("float_sum_below_largest_uniform", below)
+    groups.append(("inversion_floatinc", "Z * Z * list (Z * Q) * Z * list (Q * Z * bool * Z) * list Q * (Z * Z) * list Z", "chk_inv_direct", g_inc))
+
+
+def _floatinc_case(res, rng, g_inc, L, R, masses, method):
+    """audit 4, B11: how the Q theorems are read on a FLOAT run.  InversionMethod stores s_0 = p_0, s_{k+1} = fl(s_k + p_{k+1}) and compares
+    the uniform with these floats only; with prob'(state_k) := s_k - s_{k-1} (exact rationals) the model's sums ARE the stored floats and
+    sigma is the stored float sum.  Here: a factory chain on ROUNDED probabilities, a scripted history (uniforms at the stored sums -/+ one
+    ulp, random ones, 1 - 2^-53 with every position of the deque) with default and tiny _max_storage; chk_inv_direct must reproduce every
+    state, every use of np.random.choice, the final sums and the StatesManager state -- incl. the ORIGIN on edge-origin axes."""
+    mk = lambda: build_chain(0.25, L, masses, method, right=R)[0].sampling
+    ref = mk()
+    with ScriptedChoice():
+        ref.sample_with_u(2.0)                              # exhausts the enumeration: every partial sum is stored
+    cums = [float(c_) for c_ in ref._cumulative_probabilities]
+    enum = [int(ref.state_manager.pairing.project(x)) for x in range(L + R)]
+    if len(cums) != L + R or any(b_ < a_ for a_, b_ in zip(cums, cums[1:])) or cums[0] < 0:
+        res.broke("correspondence inversion_floatinc", f"stored cumulative sums are not one non-decreasing float per state: L={L} R={R} {cums[:4]}")
+        return
+    incs = [Fr(cums[0])] + [Fr(b_) - Fr(a_) for a_, b_ in zip(cums, cums[1:])]
+    tab_lit = lst([f"({zlit(st)}, {qlit(v)})" for st, v in zip(enum, incs)])
+    top = ulp_down(1.0)
+    for M in (None, 2):
+        smp = mk()
+        if M is not None:
+            smp._max_storage = M
+        fr_idx = [int(ix) for ix in smp.state_manager.frontier_states_indices]
+        seq = [(top, c) for c in range(len(fr_idx))]
+        for k in rng.sample(range(len(cums)), min(3, len(cums))):
+            seq += [(cums[k], 0), (ulp_up(cums[k]), 1 % len(fr_idx)), (ulp_down(cums[k]), 0)]
+        seq += [(rng.randrange(0, 1 << 30) / (1 << 30), rng.randrange(len(fr_idx))) for _ in range(4)]
+        rng.shuffle(seq)
+        rows = []
+        with ScriptedChoice() as ch:
+            for u, c in seq:
+                ch.c, before = c, ch.calls
+                o = int(smp.sample_with_u(u))
+                rows.append((u, c, ch.calls > before, o))
+                res.count(("inv-floatinc", L, R, tuple(masses), M, u, c, len(rows)), kind="InversionMethod.sample_with_u (factory, rounded probabilities, float-increment reading)")
+        sm = smp.state_manager
+        g_inc.append(f"({zlit(L)}, {zlit(R)}, {tab_lit}, {zlit(1_000_000 if M is None else M)}, {_draws_lit(rows)}, "
+                     f"{lst([qlit(float(c_)) for c_ in smp._cumulative_probabilities])}, "
+                     f"({zlit(int(sm._last_projected_index))}, {zlit(int(sm._last_logged_index))}), {lst([zlit(v) for v in fr_idx])})")
 
 
 # ----------------------------------------------------------------------------- 2-d chain (oracle only)
@@ -1971,8 +2216,6 @@ Definition cell_prob (axis : list Q) (o : Z) (pieces : list (Q * Q * Q)) (lam : 
   let m := step_mass pieces (ba_cell_a axis mid_arith (o + s)) (ba_cell_b axis mid_arith (o + s)) in
   Qmaxb m 0 / lam.
 
-Definition iout_z (o : @iout Z) : Z := match o with Out s => s | Frontier => 999999%Z | NoOut => 888888%Z end.
-
 (* one history of (u, c, choice called?, state) against Model/InversionFrontier.v: inv_step_f resolves the exhaustion path with
    the scripted position c of np.random.choice in the deque fr; inv_uses_choice = whether np.random.choice was called *)
 Definition run_inv_f {S : Type} (eqb : S -> S -> bool) (proj : Z -> S) (outside : S -> bool) (F : Z) (prob : S -> Q) (M : Z) (fr : list Z) :=
@@ -2014,35 +2257,6 @@ Definition chk_inv_direct (c : Z * Z * list (Z * Q) * Z * list (Q * Z * bool * Z
   | Some st0 =>
       let '(ok, st) := run_inv_f Z.eqb proj (outside1d L R) (maxf1d L R) (lookup1 tab) M fr st0 draws in
       ok && qlist_eqb (i_cum st) final_cum && zpair_eqb (i_sm st) final_sm
-  end.
-
-Definition in_box (L R : Z) (s : Z * Z) : bool :=
-  ((- L <=? fst s) && (fst s <=? R) && (- L <=? snd s) && (snd s <=? R))%Z.
-Fixpoint lookup2 (t : list (Z * Z * Q)) (s : Z * Z) : Q :=
-  match t with [] => 0 | (a, b, q) :: r => if zpair_eqb (a, b) s then q else lookup2 r s end.
-Definition iout_zz (o : @iout (Z * Z)) : Z * Z :=
-  match o with Out s => s | Frontier => (999999, 0)%Z | NoOut => (888888, 0)%Z end.
-
-(* 2-d INVERSION: enumeration of the factory for dimension 2 (Szudzik on N^2 mapped to Z^2, zero omitted),
-   admissible = inside the box, probability table as data *)
-Definition chk_inv2d (c : Z * Z * Z * list (Z * Z * Q) * Z * list (Q * (Z * Z)) * (Z * Z) * list (Z * Z)) : bool :=
-  let '(L, R, F, tab, M, draws, final_sm, fr) := c in
-  let proj := zd2_project szudzik_projection2d 1 in
-  let outside := fun s => negb (in_box L R s) in
-  let prob := lookup2 tab in
-  match inv_init proj outside F prob with
-  | None => false
-  | Some st0 =>
-      let fix go (st : @ist (Z * Z)) (l : list (Q * (Z * Z))) : bool * @ist (Z * Z) :=
-        match l with
-        | [] => (true, st)
-        | (u, want) :: r =>
-            let so := inv_step proj outside F prob M st u in
-            if (match snd so with Frontier => existsb (zpair_eqb want) fr | o' => zpair_eqb (iout_zz o') want end)
-            then go (fst so) r else (false, fst so)
-        end in
-      let '(ok, st) := go st0 draws in
-      ok && zpair_eqb (i_sm st) final_sm
   end.
 
 (* wave 6 -- n-d INVERSION of the factory with the frontier deque INSIDE the model (Model/InversionFrontierNd.v): states are lists,
@@ -2089,7 +2303,8 @@ def correspond(res):
     chains(res, rng, groups, viol)
     inversion_direct(res, rng, groups, viol)
     chain_probability_step(res, rng, viol)
-    chain_float_sum(res, rng, viol)
+    chain_float_sum(res, rng, groups, viol)
+    chain_exponential(res, random.Random(res.seed * 7919 + 17), viol)          # wave 7: own random stream
     chain_2d(res, rng, groups, viol)
     chain_nd_table(res, rng, groups, viol)
     chain_nd_wide(res, rng, viol)
@@ -2132,6 +2347,49 @@ def _safe(f, job):
         return job, e
 
 
+def _rerun_frontier_finding(r, kid):
+    """F-C02-13 / F-C02-14: INVERSION through the factory on ROUNDED probabilities, a uniform in (float sum, 1), the frontier draw.
+    Re-runs the draw on $RPYLIB_REPO and requires, on the RECOMPUTED quantities (each also equal to the recorded one):
+      - intensity = sum of the cell masses, not a power of two; the float sum s of the probabilities is below 1 by at most
+        len(masses) * 2^-53 (rounding of rate / intensity and of the additions -- NOT a lost part of the mass);
+      - s < u < 1 and np.random.choice is called exactly once;
+      - the deque projects to [right, -left] (Model/Domain.v dom_1d), the state returned is project(deque[choice]);
+      - F-C02-13: that state is in the grid, is not the origin and its cell mass is exactly 0;
+      - F-C02-14: the axis is edge-origin (left = 0 < right or right = 0 < left), the deque entry is pair(0) = -1 and the state is 0."""
+    from rpylib.distribution.sampling import SamplingMethod as SM
+    L, R, h, u, c = r["left"], r["right"], r["h"], r["u"], r["choice"]
+    if r.get("sampler") != "INVERSION" or not all(isinstance(v, int) and not isinstance(v, bool) for v in (L, R, c)) or L < 0 or R < 0:
+        return False
+    if not isinstance(u, float) or not isinstance(r.get("float_sum"), float) or not isinstance(r.get("intensity"), float):
+        return False
+    masses = [Fr(x) for x in r["masses"]]
+    if len(masses) != L + R + 1 or masses[L] != 0 or any(m < 0 for m in masses):
+        return False
+    lam = sum(masses)
+    rounded = not (lam.numerator & (lam.numerator - 1) == 0 and lam.denominator & (lam.denominator - 1) == 0)
+    proc = build_chain(h, L, masses, SM.INVERSION, right=R)[0]
+    s = proc.sampling
+    sm = s.state_manager
+    fr_idx = [int(ix) for ix in sm.frontier_states_indices]
+    fr_states = [int(sm.pairing.project(ix)) for ix in fr_idx]
+    if not (0 <= c < len(fr_idx)):
+        return False
+    with ScriptedChoice() as ch:
+        ch.c = c
+        o = int(s.sample_with_u(u))
+    top = float(s._cumulative_probabilities[-1])
+    common_ok = (rounded and lam > 0 and Fr(float(proc.intensity_of_jumps)) == lam and r["intensity"] == float(proc.intensity_of_jumps)
+                 and len(s._cumulative_probabilities) == L + R and r["float_sum"] == top
+                 and 0 <= Fr(1) - Fr(top) <= len(masses) * Fr(1, 1 << 53) and top < u < 1.0 and ch.calls == 1
+                 and fr_states == [R, -L] and r.get("frontier_states") == fr_states and r.get("frontier_indices", fr_idx) == fr_idx
+                 and o == fr_states[c] and r.get("got") == o)
+    if not common_ok:
+        return False
+    if kid == "F-C02-13":
+        return o != 0 and -L <= o <= R and masses[o + L] == 0 and r.get("probability_of_got") == "0"
+    return ((L == 0) != (R == 0)) and fr_idx[c] == -1 and o == 0
+
+
 def matches_known(v, known):
     """a violation tagged with a recorded finding is accepted only if it IS that finding (witness class + the behaviour the
     faithful model predicts); anything else carrying the tag is a new violation."""
@@ -2143,20 +2401,14 @@ def matches_known(v, known):
         first = r.get("first_enumerated_state")
         return (r.get("sampler") in RIGHT_CLOSED and r.get("u") == 0.0 and first is not None and got == first
                 and r.get("probability_of_got") == "0")
-    if known["id"] == "F-C02-13":
-        # only INVERSION through the factory on ROUNDED probabilities (intensity not a power of two), only a uniform in
-        # (float sum, 1), only the frontier state at the recorded position of the deque (what Model/InversionFrontier.v and
-        # C02_inversion_frontier_law predict), only if that state has probability zero and is in the grid and not the origin
-        lam = r.get("intensity")
-        if not isinstance(lam, float) or lam <= 0:
+    if known["id"] in ("F-C02-13", "F-C02-14"):
+        # audit 4, A1: nothing self-reported is trusted.  The chain is REBUILT from (h, left, right, masses) through the public factory
+        # and the draw is RE-RUN with the recorded position of np.random.choice; accepted only if the re-run reproduces the record and
+        # the record is the finding: see _rerun_frontier_finding
+        try:
+            return _rerun_frontier_finding(r, known["id"])
+        except Exception:  # noqa  (a malformed record is not the finding)
             return False
-        fr = Fr(lam)
-        rounded = not (fr.numerator & (fr.numerator - 1) == 0 and fr.denominator & (fr.denominator - 1) == 0)
-        c, frs = r.get("choice"), r.get("frontier_states")
-        return (r.get("sampler") == "INVERSION" and rounded and isinstance(r.get("float_sum"), float) and isinstance(r.get("u"), float)
-                and r["float_sum"] < r["u"] < 1.0 and isinstance(frs, list) and isinstance(c, int) and 0 <= c < len(frs)
-                and r.get("got") == frs[c] and r.get("got") != 0 and -r.get("left", 0) <= r.get("got") <= r.get("right", 0)
-                and r.get("probability_of_got") == "0")
     if known["id"] == "F-C02-8":
         # only BST / Huffman built on ROUNDED probabilities (intensity not a power of two), only a uniform at or above the float
         # sum of the vector, only the last leaf in in-order (the catch-all of the descent), only if that leaf is the origin
@@ -2240,6 +2492,12 @@ def replay(path):
                 print("replay: states whose length differs from p:", bad[:10])
                 return 1 if bad else 0
             return 1
+        if data.get("exp_case"):
+            lengths, target, tol, cut = exp_case_law(data["model"], data["params"], data["exponential"], data["h"], data["nb_of_points"], name, random.Random(1))
+            k = data.get("state")
+            bad = [k_ for k_ in target if abs(float(lengths.get(k_, Fr(0))) - target[k_]) > tol] + [k_ for k_ in lengths if k_ not in target and lengths[k_] > 0]
+            print("replay: state", k, "length", float(lengths.get(k, Fr(0))) if k is not None else None, "target", target.get(k), "states off target:", bad[:10])
+            return 1 if bad else 0
         if name.endswith("-2d"):
             method = SM[name[:-3]]
             m1 = [Fr(x) for x in data["masses1"]]
@@ -2258,7 +2516,7 @@ def replay(path):
             o = ent(mk())(data["u"])
             print("replay: state for u =", data["u"], "->", o)
             return 1 if list(o) == data.get("got") else 0
-        if data.get("finding") == "F-C02-13" or (name == "INVERSION" and "choice" in data and "left" in data):
+        if data.get("finding") in ("F-C02-13", "F-C02-14") or (name == "INVERSION" and "choice" in data and "left" in data):
             masses = [Fr(x) for x in data["masses"]]
             s = build_chain(data["h"], data["left"], masses, SM.INVERSION, right=data["right"])[0].sampling
             with ScriptedChoice() as ch:
